@@ -235,7 +235,8 @@ theorem sF_step_flushP1 (f : Sem) (j : Job) (cl : Cluster) (s s' : Sys) (hF : In
 /-! ### recv (FIFO) -/
 
 theorem sF_step_recv (f : Sem) (j : Job) (cl : Cluster) (s s' : Sys) (evs : List Event) (hA : InvAll f j cl s)
-    (hF : InvFifo j cl s) (hfifo : evs = s.env.pending.take evs.length)
+    (hF : InvFifo j cl s) (hfifo : ∀ pend, takeEvents s.env.pending evs = some pend →
+      ∀ t, evs.filterMap (noticeOf t) ++ pend.filterMap (noticeOf t) = s.env.pending.filterMap (noticeOf t))
     (hs : step f j cl s (.recv evs) = some s') : InvFifo j cl s' := by
   simp only [step] at hs
   split at hs; · cases hs
@@ -247,19 +248,24 @@ theorem sF_step_recv (f : Sem) (j : Job) (cl : Cluster) (s s' : Sys) (evs : List
   · cases hs
   · rename_i pend htk
     cases hs
-    have hall : evs ++ pend = s.env.pending := by
-      have h1 := sF_takeEvents_prefix evs.length s.env.pending
-      rw [← hfifo, htk] at h1
-      have h2 : pend = s.env.pending.drop evs.length := Option.some.inj h1
-      rw [h2]
-      conv => lhs; arg 1; rw [hfifo]
-      exact List.take_append_drop _ _
+    have hall := hfifo pend htk
     obtain ⟨m1, m2⟩ := sF_markDelivered_frame evs { s.env with pending := pend }
     refine sF_congr hF m2 ?_ rfl rfl rfl rfl rfl rfl rfl (fun _ _ => Iff.rfl)
     intro t
     rw [sF_po, sF_po]
     simp only [m1, hinb, List.filterMap_nil, List.nil_append]
-    rw [← List.filterMap_append, hall]
+    rw [← sF_sel_noticeOf]; exact hall t
+
+/-- the global discipline (a batch is a prefix of ALL pending events) is a special case of per-producer FIFO -/
+theorem fifoStep_of_prefix (x : SysX) (evs : List Event) (h : evs = x.sys.env.pending.take evs.length) :
+    fifoStep x (.base (.recv evs)) := by
+  intro pend htk t
+  have h1 := sF_takeEvents_prefix evs.length x.sys.env.pending
+  rw [← h, htk] at h1
+  have h2 : pend = x.sys.env.pending.drop evs.length := Option.some.inj h1
+  rw [h2, ← List.filterMap_append]
+  conv => lhs; arg 2; arg 1; rw [h]
+  rw [List.take_append_drop]
 
 /-! ### environment steps -/
 
@@ -516,7 +522,8 @@ theorem sF_step_notify1 (f : Sem) (j : Job) (cl : Cluster) (s s' : Sys) (hA : In
 
 theorem sF_step (f : Sem) (j : Job) (cl : Cluster) (s s' : Sys) (st : Step) (wf : WF j cl)
     (hA : InvAll f j cl s) (hF : InvFifo j cl s) (hX : InvFifoX s)
-    (hfifo : ∀ evs, st = .recv evs → evs = s.env.pending.take evs.length)
+    (hfifo : ∀ evs, st = .recv evs → ∀ pend, takeEvents s.env.pending evs = some pend →
+      ∀ t, evs.filterMap (noticeOf t) ++ pend.filterMap (noticeOf t) = s.env.pending.filterMap (noticeOf t))
     (hs : step f j cl s st = some s') : InvFifo j cl s' := by
   have hA' : InvAll f j cl s' := invAll_step f j cl s s' st wf hA hs
   cases st with
